@@ -9,11 +9,11 @@ def check(pid, engine, category, text, note, technique, design):
     C[pid] = dict(engine=engine, category=category, text=text, note=note, technique=technique, design=design)
 
 check("C01", "luaref+gen+glrun", "exploration",
-      "Bounded-exhaustive program enumeration: every program of six generator families (multiple assignment x aliasing, operator trees x destination contexts x surrounding code, boolean skeletons, control-flow statement trees, numeric-for triples, table constructors around the flush boundary) is rendered to text, run on gopher-lua and on an independent reference interpreter, and host-call trace, results, failure and failure line are compared.",
+      "Bounded-exhaustive program enumeration: every program of six generator families (multiple assignment x aliasing, operator trees x destination contexts x surrounding code, boolean skeletons, control-flow statement trees, numeric-for triples, table constructors around the flush boundary) is rendered to text, run on gopher-lua and on an independent reference interpreter, and host-call trace, results, failure and failure line are compared. Added families: F-goto (every placement of up to 3-4 goto/label statements over two names in a nest of blocks; verdict from a transcription of the label rules - invalid programs must be refused by the loader), F-genfor, F-constobj, F-localscope, the closure families of C03, and operands/destinations as function parameters.",
       "Bounded size of terms and alphabets; the reference interpreter luaref is the executable reading of the Lua 5.1 manual (trusted, small, independent of the repository); outcomes Lua 5.1 leaves open are not compared.",
       "small-scope exhaustive enumeration of programs against an executable reference model (bounded model checking of the implementation)", "DESIGN.md §4 C01")
 check("C09", "histbfs", "model_checking",
-      "Explicit-state breadth-first search over all store histories up to a depth bound (16 keys of every type x 4 values x 11 store paths + Append), each transition executed on a real LTable; every distinct (map model, internal layout) state is checked with every read path, every length observer, every traversal driver and every single-mutation traversal against a Go map.",
+      "Explicit-state breadth-first search over all store histories up to a depth bound (16 keys of every type x 4 values x 11 store paths + Append), each transition executed on a real LTable; every distinct (map model, internal layout) state is checked with every read path, every length observer, every traversal driver and every single-mutation traversal against a Go map. A second, narrow phase (one key per representation, store/erase only) runs to depth 8 (thorough 12), also from tables created by CreateTable with empty/pre-sized parts; a bulk part traverses tables of 1-300 hash fields while existing fields are cleared (6 scenarios x 3 drivers).",
       "Bounded depth (3 quick / 4 thorough); MaxArrayIndex lowered to 8 in the checking process so the array/hash boundary is reachable; keys and values outside the alphabet are not covered.",
       "explicit-state BFS of operation histories on the real table with a reference map", "DESIGN.md §4 C09")
 check("C15", "inputenum", "exploration",
@@ -21,37 +21,37 @@ check("C15", "inputenum", "exploration",
       "Alphabets and bounds as listed in the evidence; libc snprintf in the C locale is the meaning of 'as C printf does'; transcendental functions are judged within 2 ulp of a 320-bit reference.",
       "small-scope exhaustive input enumeration against definitions written from the manual and libc", "DESIGN.md §4 C15")
 check("C18", "histbfs", "model_checking",
-      "Explicit-state BFS over list-operation histories (insert/remove/assignment/sort through Lua and the Go table API) from the empty list and from every list of length <= 3, with a slice model; every distinct (model, internal array layout) state is observed through #, getn, maxn, rawget, concat and unpack over all index pairs; plus an exhaustive sort family (all short lists x table builds x 20 comparators incl. failing-on-k-th-call).",
+      "Explicit-state BFS over list-operation histories (insert/remove/assignment/sort through Lua and the Go table API) from the empty list and from every list of length <= 3, with a slice model; every distinct (model, internal array layout) state is observed through #, getn, maxn, rawget, concat and unpack over all index pairs; plus an exhaustive sort family (all short lists x table builds x 20 comparators incl. failing-on-k-th-call). Also: lists holding false, lists of up to 20 000 elements, explicit-nil optional arguments, insert of nil, pinned cases.",
       "Bounded depth (5 quick / 7 thorough) and list lengths; values {1,2,3,\"a\"}.",
       "explicit-state BFS of operation histories on real tables with a slice model; exhaustive small-scope sort inputs", "DESIGN.md §4 C18")
 
 check("C02", "luaref+gen+glrun", "exploration",
-      "Complete product of callee shape x argument list x result context x callee kind (Lua, host Go function, __call object, method with near and far constant, pcall) x ordinary/tail position; every select(n, ...) and unpack(t, i, j) over small ranges; multi-result counts around the 50-item flush boundary; tail-recursive loops for each callee kind with white-box (call depth, registry top) snapshots per iteration and 10^6 iterations under CallStackSize 8. Each program runs on gopher-lua and on the reference interpreter.",
+      "Complete product of callee shape x argument list x result context x callee kind (Lua, host Go function, __call object, method with near and far constant, pcall) x ordinary/tail position; every select(n, ...) and unpack(t, i, j) over small ranges; multi-result counts around the 50-item flush boundary; tail-recursive loops for each callee kind with white-box (call depth, registry top) snapshots per iteration and 10^6 iterations under CallStackSize 8. Each program runs on gopher-lua and on the reference interpreter. Every family also runs below 30 (thorough: 110) vararg frames of different sizes.",
       "Bounded numbers of parameters/arguments (0-4) and results; luaref is the reading of Lua 5.1 call/return adjustment; periodicity of the white-box snapshot stands in for 'without bound'.",
       "small-scope exhaustive enumeration of call shapes against an executable reference model; state-recurrence argument for proper tail calls", "DESIGN.md §4 C02")
 check("C03", "luaref+gen+glrun", "exploration",
-      "Product of capture site x captured variable kind x exit route (fall-through, break, goto out/continue, return, tail call, error/fault under pcall/xpcall, coroutine abandoned/dying/returning) x iteration of the exit x what runs afterwards x use (read, write through one closure and read through another), plus variables of live frames captured before a protected call fails, plus getfenv/setfenv programs; reference interpreter models variables as heap cells; white-box check that no open upvalue points above the live frames after a protected call.",
+      "Product of capture site x captured variable kind x exit route (fall-through, break, goto out/continue, return, tail call, error/fault under pcall/xpcall, coroutine abandoned/dying/returning) x iteration of the exit x what runs afterwards x use (read, write through one closure and read through another), plus variables of live frames captured before a protected call fails, plus getfenv/setfenv programs; reference interpreter models variables as heap cells; white-box check that no open upvalue points above the live frames after a protected call. F-nest: the complete product of 7 block kinds nested to depth 2 (thorough 3) x capture none/own/all per level x 10 exit kinds x exit level/position/iteration, also as the first thing in a function without parameters or locals.",
       "Bounded loop counts (3) and nesting; instruction-level fault injection for closures is part of C05.",
       "small-scope exhaustive enumeration of closure programs against an executable reference model + white-box invariant", "DESIGN.md §4 C03")
 check("C04", "luaref+gen+glrun", "exploration",
-      "Complete product of event x ordered operand pair (15 operands: tables/userdata sharing or not sharing metatables and handlers, plain values) x operand form (local, constant, upvalue) x context (value, branch, tail) x handler result; __index/__newindex function and table chains incl. depth 99/100/101; __call in every call context; __tostring, __metatable, raw functions. Handlers log event, argument identities and order.",
+      "Complete product of event x ordered operand pair (15 operands: tables/userdata sharing or not sharing metatables and handlers, plain values) x operand form (local, constant, upvalue) x context (value, branch, tail) x handler result; __index/__newindex function and table chains incl. depth 99/100/101; __call in every call context; __tostring, __metatable, raw functions. Handlers log event, argument identities and order. F-chain: complete product of 1-3 linked tables x key absent/present/false x __index none/table/function x __newindex none/table/logging/rawsetting x key form; the call/index families also under registries that grow stepwise from 128 slots, with F-callalign (a __call object invoked from frames of 95-140 locals).",
       "luaref implements the manual's §2.8 pseudo-code; not judged: __len on tables, second argument of __unm, __gc/__mode, callable tables as handlers, setmetatable argument checking.",
       "small-scope exhaustive enumeration of metamethod dispatch against an executable reference model", "DESIGN.md §4 C04")
 check("C06", "luaref+histbfs", "model_checking",
-      "Explicit-state BFS over coroutine drive histories (create/wrap over 15 body kinds, resume/call of any of 3 slots with 0/1/3 payload values, generic-for over a wrapped generator); after every step the status of every coroutine and coroutine.running() are observed; each history is rendered as a program and executed from scratch on gopher-lua and on the reference interpreter; states merged on the model's abstract state; plus the same bodies driven through LState.NewThread/Resume.",
-      "Histories complete to depth 3 (quick) / 5 (thorough) plus one level of resumes; not generated: yield across pcall/metamethod/iterator boundaries and resume of a normal coroutine (implementation-defined in 5.1).",
+      "Explicit-state BFS over coroutine drive histories (create/wrap over 15 body kinds, resume/call of any of 3 slots with 0/1/3 payload values, generic-for over a wrapped generator); after every step the status of every coroutine and coroutine.running() are observed; each history is rendered as a program and executed from scratch on gopher-lua and on the reference interpreter; states merged on the model's abstract state; plus the same bodies driven through LState.NewThread/Resume. Also: the program families of C01-C03 as coroutine bodies that suspend after every observable event (with a register-hungry call or a second coroutine between resumes), yields below 14 kinds of call boundary, Go functions as bodies, creation chains to depth 4 x every resume sequence (with and without a live context), value-stack exhaustion inside coroutines, crash canaries in child processes.",
+      "Histories complete to depth 3 (quick) / 5 (thorough) plus one level of resumes; resume of a normal coroutine and yields below call boundaries are judged by lcorolib.c/ldo.c (refusal, error at the yield).",
       "explicit-state BFS over operation histories, every trace replayed on the implementation and compared with an executable reference model", "DESIGN.md §4 C06")
 check("C07", "bcverify", "exploration",
-      "Structural bytecode verifier written from opcode.go/vm.go (independent of the compiler) applied to every prototype of: the repository's test scripts, boundary families around every documented limit (locals, parameters, upvalues, constants, constructor sizes, nesting, jump distances) and every sequence of <=3 statement kinds in every block position; accepted programs are also executed and compared with predicted results; 39 verifier rules are self-tested on damaged prototypes.",
+      "Structural bytecode verifier written from opcode.go/vm.go (independent of the compiler) applied to every prototype of: the repository's test scripts, boundary families around every documented limit (locals, parameters, upvalues, constants, constructor sizes, nesting, jump distances) and every sequence of <=3 statement kinds in every block position; accepted programs are also executed and compared with predicted results; 39 verifier rules are self-tested on damaged prototypes. Added families: constructors of up to 51 151 items as operands, the implicit arg table of vararg functions.",
       "Bounded program sizes; operand classes already out of the declared register range on the unchanged tree are known findings (one per root cause), every other class is a violation.",
       "exhaustive enumeration of program families + structural verification of every compiled prototype", "DESIGN.md §4 C07")
 check("C10", "histbfs", "model_checking",
-      "BFS over value-stack operation histories (Push/Pop/Get/SetTop/Insert/Remove/Replace/GetTop with boundary indices) inside host functions at activation depth 0-3 with 0-3 arguments on fixed and growing registries against a Go slice, callers' registers compared bit-for-bit; complete call-contract matrix (nargs x NRet x results x callee kind x entry point x outcome); object-level API calls compared with the same operation as a Lua chunk over all operand pairs incl. handler logs.",
+      "BFS over value-stack operation histories (Push/Pop/Get/SetTop/Insert/Remove/Replace/GetTop with boundary indices) inside host functions at activation depth 0-3 with 0-3 arguments on fixed and growing registries against a Go slice, callers' registers compared bit-for-bit; complete call-contract matrix (nargs x NRet x results x callee kind x entry point x outcome); object-level API calls compared with the same operation as a Lua chunk over all operand pairs incl. handler logs. Also: pseudo-indices and environments inside host functions that have an environment of their own (GlobalsIndex/EnvironIndex/RegistryIndex, GetGlobal/SetGlobal vs __index/__newindex of the global table).",
       "Bounded history depth (6 quick / 8 thorough merged; 3/4 unmerged); Insert at non-positive or beyond-top indices only checked for list-ness.",
       "explicit-state BFS of API operation histories on real states with a slice model; exhaustive call/operand matrices", "DESIGN.md §4 C10")
 check("C20", "histbfs", "model_checking",
-      "BFS over require/preload histories (3 module names x 6 loader sources x 11 loader behaviours incl. mutual and self requires; require, pcall(require), re-registration, package.loaded[x]=nil, RegisterModule), each history replayed on a fresh LState with real files, against a Go model of ll_require; result identity, loader invocation log, error classes/messages and package.loaded read-back compared on every transition; plus host-module/open-order scenarios.",
-      "Bounded depth (2-5 quick, 3-7 thorough depending on alphabet); which of returned/stored value wins is not judged.",
+      "BFS over require/preload histories (3 module names x 6 loader sources x 11 loader behaviours incl. mutual and self requires; require, pcall(require), re-registration, package.loaded[x]=nil, RegisterModule), each history replayed on a fresh LState with real files, against a Go model of ll_require; result identity, loader invocation log, error classes/messages and package.loaded read-back compared on every transition; plus host-module/open-order scenarios. Pinned cases for the repaired precedence of a loader's return value and for a replaced package.loaders.",
+      "Bounded depth (2-5 quick, 3-7 thorough depending on alphabet); which of returned/stored value wins is judged by pinned cases only.",
       "explicit-state BFS of operation histories on real states with a reference model", "DESIGN.md §4 C20")
 
 check("C16", "inputenum", "exploration",
@@ -59,16 +59,16 @@ check("C16", "inputenum", "exploration",
       "Alphabets and bounds as listed in the evidence; spellings on which ISO C strtod and the property text disagree are not judged.",
       "small-scope exhaustive input enumeration against reference grammars written from the manual", "DESIGN.md §4 C16")
 check("C17", "luaref+gen+glrun", "exploration",
-      "30 fault-site kinds x 10 enclosing block kinds x a layout set (four line-end styles, tabs, indentation, semicolons, leading lines, six comment forms, redundant parentheses, and a line break inserted at every single token gap of the program); the reference interpreter derives the admissible line range from the token lines recorded by the printer for that very layout. debug.getinfo currentline/linedefined/lastlinedefined probes and debug.getlocal/getupvalue/setlocal/setupvalue probes inserted at every statement gap of ten scope-exercising programs.",
+      "30 fault-site kinds x 10 enclosing block kinds x a layout set (four line-end styles, tabs, indentation, semicolons, leading lines, six comment forms, redundant parentheses, and a line break inserted at every single token gap of the program); the reference interpreter derives the admissible line range from the token lines recorded by the printer for that very layout. debug.getinfo currentline/linedefined/lastlinedefined probes and debug.getlocal/getupvalue/setlocal/setupvalue probes inserted at every statement gap of ten scope-exercising programs. Added: debug.getlocal/setlocal at every statement gap of every nesting of 8 block kinds (depth 2, thorough 3) with shadowed names; block-boundary layouts (every carriage return in turn as the last byte of a 4096-byte read block) and programs with every kind of line end inside long strings and comments.",
       "A statement spread over several lines admits any of its lines; temporaries and hidden loop variables are ignored; upvalue lists are compared as sets.",
       "small-scope exhaustive enumeration of programs x layouts against an executable reference model with token positions", "DESIGN.md §4 C17")
 
 check("C05", "faultenum", "fault_enumeration",
-      "Deviation-bounded fault enumeration on the real interpreter: 171 base programs (protected region kind pcall/xpcall/Go PCall/protected CallByParam/coroutine.resume/wrap-in-pcall, nested up to 3 deep, in caller loops, entered from metamethods/comparators/gsub callbacks/iterators/host callbacks) x 12 body kinds; one run per instruction boundary with RaiseError injected there (every boundary of the fault-free run, through the per-instruction step hook), one run per host-function call with a Go panic / nil dereference / RaiseError / error(table) raised inside it; thorough tier adds a second fault after the first recovery. Oracle: no escaping Go panic, innermost region fails exactly once, trace = fault-free prefix ++ failure ++ fault-free continuation, white-box snapshot restored, xpcall handler ran once before unwinding, canary program behaves as on a fresh state. error(v) for values of every type is compared with the reference interpreter.",
+      "Deviation-bounded fault enumeration on the real interpreter: 171 base programs (protected region kind pcall/xpcall/Go PCall/protected CallByParam/coroutine.resume/wrap-in-pcall, nested up to 3 deep, in caller loops, entered from metamethods/comparators/gsub callbacks/iterators/host callbacks) x 12 body kinds; one run per instruction boundary with RaiseError injected there (every boundary of the fault-free run, through the per-instruction step hook), one run per host-function call with a Go panic / nil dereference / RaiseError / error(table) raised inside it; thorough tier adds a second fault after the first recovery. Oracle: no escaping Go panic, innermost region fails exactly once, trace = fault-free prefix ++ failure ++ fault-free continuation, white-box snapshot restored, xpcall handler ran once before unwinding, canary program behaves as on a fresh state. error(v) for values of every type is compared with the reference interpreter. Also: coroutine families (errors on an exhausted value stack, below call boundaries, Go functions as bodies) against the reference interpreter, Go-side Resume as a protected entry point, a white-box current-thread invariant on every recorded host call and a quiescence invariant after every run, pinned cases for repaired defects.",
       "Base programs and their instruction boundaries (about 10^5 fault points quick); injected RaiseError at a boundary is the fault cancellation produces; expected traces are derived from the validated fault-free run of the same program.",
       "exhaustive single-fault (and bounded double-fault) injection at every instruction boundary and host call of a program family, with trace and white-box state oracles", "DESIGN.md §4 C05")
 check("C12", "histbfs", "model_checking",
-      "BFS over operation histories of the unexported call-frame stacks (fixed and auto-growing, sizes around segment boundaries, poisoned segment pool) and of the registry (initial/grow/max combinations) against slice models; end-to-end limit cases on real states (recursion depth limit-2..limit+2 for CallStackSize 1..18,256 x MinimizeStackMemory in 12 protected contexts; argument/unpack/constructor sizes straddling the registry limit for fixed and growing registries) with snapshot, follow-up and closure oracles; a program corpus under 24 Options configurations with identical traces required.",
+      "BFS over operation histories of the unexported call-frame stacks (fixed and auto-growing, sizes around segment boundaries, poisoned segment pool) and of the registry (initial/grow/max combinations) against slice models; end-to-end limit cases on real states (recursion depth limit-2..limit+2 for CallStackSize 1..18,256 x MinimizeStackMemory in 12 protected contexts; argument/unpack/constructor sizes straddling the registry limit for fixed and growing registries) with snapshot, follow-up and closure oracles; a program corpus under 24 Options configurations with identical traces required. Part 4 runs program families under registries that really grow (start >= 128, cut back before every program, padding frames) and value-stack exhaustion inside coroutines under the default registry; pinned Go-API cases.",
       "Bounded history depth and sizes as listed in the evidence; outcomes between CallStackSize and the next segment multiple, and between lower and upper bounds of register demand, are accepted either way but must be clean.",
       "explicit-state BFS of operation histories against slice models + exhaustive boundary windows on real states + configuration product", "DESIGN.md §4 C12")
 check("C19", "histbfs", "model_checking",
@@ -77,20 +77,20 @@ check("C19", "histbfs", "model_checking",
       "explicit-state BFS of operation histories on real files with a reference model", "DESIGN.md §4 C19")
 
 check("C11", "faultenum", "fault_enumeration",
-      "27 scripts (tight loops, recursion, tail calls, goto loops, pcall/xpcall retry loops, looping error handlers, metamethod recursion, gsub/sort callbacks, iterators, coroutine ping-pong plain/wrapped/nested, host call-backs, terminating programs) x cancellation at every instruction index k up to a horizon: the per-instruction step hook calls the real cancel() at instruction k; for scripts without coroutines an independent poll-counting Context must give the same result. Oracle: error carries the context's reason, bounded number of instructions after k, no host call after k, trace is the prefix of the context-free run, attached-but-undone context changes nothing; blocking receive/send/select are cancelled while parked in the operation (through the reflect shim); coroutines refuse to run after cancellation.",
+      "27 scripts (tight loops, recursion, tail calls, goto loops, pcall/xpcall retry loops, looping error handlers, metamethod recursion, gsub/sort callbacks, iterators, coroutine ping-pong plain/wrapped/nested, host call-backs, terminating programs) x cancellation at every instruction index k up to a horizon: the per-instruction step hook calls the real cancel() at instruction k; for scripts without coroutines an independent poll-counting Context must give the same result. Oracle: error carries the context's reason, bounded number of instructions after k, no host call after k, trace is the prefix of the context-free run, attached-but-undone context changes nothing; blocking receive/send/select are cancelled while parked in the operation (through the reflect shim); coroutines refuse to run after cancellation. Also: coroutine-centred program families on states that carry a live, never cancelled context, compared with the reference interpreter.",
       "Horizon 1500 instructions quick / 12000 thorough per script; child-context cancellation is synchronous; the blocking clause uses a 20 s watchdog only to detect a hang.",
       "exhaustive enumeration of the cancellation point over every instruction boundary of a script family, two independent injection seams", "DESIGN.md §4 C11")
 check("C14", "inputenum", "exploration",
-      "All patterns up to length 3-4 (quick) / 5-6 (thorough) over a 17-symbol pattern alphabet (plus token sequences, set patterns, back-reference patterns) x all subjects up to length 2-4 over a 5-byte alphabet x init positions, through pm.Find and string.find/match/gmatch/gsub (replacement strings, tables, functions, limits); compared with a line-by-line Go port of lstrlib.c 5.1.4's matcher; character-class table over all 128 ASCII bytes; growth families for the recursion cap in a child process.",
-      "Alphabets and bounds as listed in the evidence; not judged: %f, sets mixing classes and ranges, bytes >= 0x80, replacement escapes other than %0-%9 and %%.",
+      "All patterns up to length 3-4 (quick) / 5-6 (thorough) over a 17-symbol pattern alphabet (plus token sequences, set patterns, back-reference patterns) x all subjects up to length 2-4 over a 5-byte alphabet x init positions, through pm.Find and string.find/match/gmatch/gsub (replacement strings, tables, functions, limits); compared with a line-by-line Go port of lstrlib.c 5.1.4's matcher; character-class table over all 128 ASCII bytes; growth families for the recursion cap in a child process. Block QU: subjects and patterns over the bytes of a multi-byte UTF-8 sequence.",
+      "Alphabets and bounds as listed in the evidence; not judged: %f, sets mixing classes and ranges, bytes >= 0x80 outside block QU, replacement escapes other than %0-%9 and %%.",
       "small-scope exhaustive input enumeration against a reference matcher ported from lstrlib.c", "DESIGN.md §4 C14")
 
 check("C08", "inputenum", "exploration",
-      "Exhaustive input enumeration: all byte strings up to length 2 (quick) / 3 (thorough); all token sequences up to length 3-5 over a 60/37-token alphabet (joined by a blank and by nothing); every truncation, single-byte deletion and 24 structural-byte substitutions of a program corpus; string/comment openers and escapes; deep-nesting families in a child process. Each input is loaded through LoadString (twice), DoString and parse.Parse+Compile under recover and compared with an independent Lua 5.1 tokenizer/recogniser (Accept/Reject/Unknown). Every accepted corpus program is re-rendered in a layout set (four line-end styles, minimal blanks, tabs, one token per line, semicolons, redundant parentheses, 16 comment/blank forms in every token gap) and must compile to the same code and produce the same trace.",
+      "Exhaustive input enumeration: all byte strings up to length 2 (quick) / 3 (thorough); all token sequences up to length 3-5 over a 60/37-token alphabet (joined by a blank and by nothing); every truncation, single-byte deletion and 24 structural-byte substitutions of a program corpus; string/comment openers and escapes; deep-nesting families in a child process. Each input is loaded through LoadString (twice), DoString and parse.Parse+Compile under recover and compared with an independent Lua 5.1 tokenizer/recogniser (Accept/Reject/Unknown). Every accepted corpus program is re-rendered in a layout set (four line-end styles, minimal blanks, tabs, one token per line, semicolons, redundant parentheses, 16 comment/blank forms in every token gap) and must compile to the same code and produce the same trace. Also: 61 376 invalid goto/label placements that the compiler must refuse with a syntax error, and block-boundary renderings (every carriage return of a program in turn as the last byte of the reader's 4096-byte block) of programs with every kind of line end inside long strings and comments, compared with the reference interpreter.",
       "Alphabets and bounds as listed in the evidence; inputs the reference recogniser cannot decide are not judged; 'never hangs' is decided up to a watchdog with isolated re-run.",
       "small-scope exhaustive input enumeration against an independent reference recogniser; differential layout rendering", "DESIGN.md §4 C08")
 check("C13", "sched", "model_checking",
-      "Stateless schedule exploration under a hand-written cooperative scheduler: every channel scenario (all pairs and triples of 17 thread bodies: producers, consumers, closers, selects with recv/recv, recv/send, recv/default, send/default cases with and without handlers; capacities 0/1/2) and interference scenarios (states running one shared compiled prototype while another state is created, compiles the same source and is closed; scheduling point at every VM instruction) is re-executed from scratch for every schedule with at most 2 (quick) / 3 (thorough) pre-emptions; the scheduler owns every channel operation through a reflect shim and a shadow model of Go channel semantics decides enabledness, forces select choices, detects deadlock and predicts every observation; refused payload types are checked sequentially. The same bodies run free-running under the Go race detector in a separate binary.",
+      "Stateless schedule exploration under a hand-written cooperative scheduler: every channel scenario (all pairs and triples of 17 thread bodies: producers, consumers, closers, selects with recv/recv, recv/send, recv/default, send/default cases with and without handlers; capacities 0/1/2) and interference scenarios (states running one shared compiled prototype while another state is created, compiles the same source and is closed; scheduling point at every VM instruction) is re-executed from scratch for every schedule with at most 2 (quick) / 3 (thorough) pre-emptions; the scheduler owns every channel operation through a reflect shim and a shadow model of Go channel semantics decides enabledness, forces select choices, detects deadlock and predicts every observation; refused payload types are checked sequentially. The same bodies run free-running under the Go race detector in a separate binary. Also: every route a payload can take into a channel (send, five forms of a select send case, with and without context); a shared-prototype part in which 77 000 family programs and call-site x probe programs are compiled once, the complete prototype tree is dumped before and after, and two states run the same prototype. Quick: pre-emption bound 3, interference bound 2 complete; thorough: 4 and 3.",
       "Pre-emption bound; select against select is not generated; the data-race clause is decided by happens-before detection on the executions of the free-running pass, not by enumeration; memory orderings below sequential consistency are not modelled.",
       "stateless model checking of the implementation: DFS over schedules with iterative context bounding under a controlled scheduler, shadow channel model as oracle; complementary -race pass", "DESIGN.md §4 C13")
 
